@@ -15,7 +15,7 @@ _base = {}
 
 def gen(rng, tier):
     cases = []
-    n = 45 if tier == "quick" else 1500
+    n = 45 if tier == "quick" else 300
     for i in range(n):
         data, meta, info = streamgen.gen_file(rng)
         if i % 3 == 0:
